@@ -99,6 +99,93 @@ def run(chk) -> None:
     chk.rule("R10g", "the break-safety guard of template-safe reflow (LT05 skips the discard step) decides on nothing but whether the two neighbours are literal: a break between two non-literal neighbours is never safe")
     _r10f(chk, repo)
     _r10g(chk, repo)
+    chk.rule("R10h", "JJ01 takes a tag apart without touching its expression: of the text between the markers exactly one leading and one trailing whitespace-control character ('+' or '-', the same set on both sides) is moved to the marker, by a one-character slice; nothing is strip()ped by character set")
+    chk.rule("R10i", "a source range counts as 'past the end of the file' only from the end of the last raw slice: the bound of the early `return []` of raw_slices_spanning_source_slice is that slice's end on every path")
+    _r10h(chk, repo)
+    _r10i(chk, repo)
+
+
+def _r10h(chk, repo) -> None:
+    from ..idioms import conditions_at
+
+    f = repo.fn("src/sqlfluff/rules/jinja/JJ01.py", "Rule_JJ01._get_whitespace_ends")
+    cfg = cfg_of(f)
+    for c in [c for c in ast.walk(f) if isinstance(c, ast.Call) and isinstance(c.func, ast.Attribute) and c.func.attr in ("strip", "lstrip", "rstrip") and (c.args or c.keywords)]:
+        chk.fail(
+            "R10h", c,
+            f"_get_whitespace_ends removes characters by set ({short(c, 40)}): a unary sign that follows the whitespace-control character (`{{{{--x}}}}`) is removed with it and the tag's "
+            "expression is rewritten by the source fix",
+            detail="JJ01: no strip by character set on the tag text",
+        )
+    sets = {}
+    n = 0
+    for st in walk_local(f):
+        if not (isinstance(st, ast.Assign) and len(st.targets) == 1 and isinstance(st.targets[0], ast.Name) and isinstance(st.value, ast.Subscript) and isinstance(st.value.slice, ast.Slice)
+                and isinstance(st.value.value, ast.Name) and st.value.value.id == st.targets[0].id):
+            continue
+        sl = st.value.slice
+        side = None
+        if sl.lower is not None and sl.upper is None:
+            side, k = "leading", sl.lower
+        elif sl.upper is not None and sl.lower is None:
+            side, k = "trailing", sl.upper
+        if side is None:
+            continue
+        one = (isinstance(k, ast.Constant) and k.value == 1) or (isinstance(k, ast.UnaryOp) and isinstance(k.op, ast.USub) and isinstance(k.operand, ast.Constant) and k.operand.value == 1)
+        n += 1
+        chk.require(one, "R10h", st, f"the {side} modifier is cut off with `{short(st.value, 30)}`, not a one-character slice", detail=f"JJ01: {side} modifier is one character")
+        chars = None
+        for e, pol in conditions_at(cfg, st):
+            if pol and isinstance(e, ast.Compare) and len(e.ops) == 1 and isinstance(e.left, ast.Subscript):
+                r = e.comparators[0]
+                if isinstance(r, ast.Name):
+                    os_ = origins(cfg, r, cfg.stmt_of(e) or st)
+                    r = os_[0].expr if len(os_) == 1 and os_[0].kind == "expr" else r
+                if isinstance(e.ops[0], ast.In) and isinstance(r, (ast.List, ast.Tuple, ast.Set)) and all(isinstance(x, ast.Constant) for x in r.elts):
+                    chars = frozenset(x.value for x in r.elts)
+                elif isinstance(e.ops[0], ast.In) and isinstance(r, ast.Constant) and isinstance(r.value, str):
+                    chars = frozenset(r.value)
+                elif isinstance(e.ops[0], ast.Eq) and isinstance(r, ast.Constant):
+                    chars = frozenset([r.value])
+        sets[side] = chars
+    chk.count("R10h.modifier_cuts", n)
+    chk.require(
+        sets.get("leading") == frozenset("+-") and sets.get("trailing") == frozenset("+-"), "R10h", f,
+        f"the whitespace-control characters recognised are {sorted(sets.get('leading') or [])} in front and {sorted(sets.get('trailing') or [])} at the end of a tag, not '+' and '-' on both sides: "
+        "the other one is treated as part of the expression and re-spaced (`{% if x +%}` -> `{% if x + %}`, which no longer renders)",
+        detail="JJ01: '+' and '-' are modifiers on both sides of a tag",
+    )
+
+
+def _r10i(chk, repo) -> None:
+    f = repo.fn("src/sqlfluff/core/templaters/base.py", "TemplatedFile.raw_slices_spanning_source_slice")
+    cfg = cfg_of(f)
+    n = 0
+    for st in walk_local(f):
+        if not (isinstance(st, ast.If) and any(isinstance(b, ast.Return) and isinstance(b.value, (ast.List, ast.Tuple)) and not b.value.elts for b in st.body)):
+            continue
+        t = st.test
+        if not (isinstance(t, ast.Compare) and len(t.ops) == 1 and isinstance(t.ops[0], (ast.GtE, ast.Gt)) and "start" in norm(t.left)):
+            continue
+        n += 1
+        bound = t.comparators[0]
+        exprs = [bound]
+        if isinstance(bound, ast.Name):
+            exprs = [o.expr for o in origins(cfg, bound, st) if o.kind == "expr"]
+        def is_end(e) -> bool:
+            if isinstance(e, ast.IfExp):
+                return is_end(e.body) and is_end(e.orelse)
+            txt = norm(e)
+            return "end_source_idx()" in txt or ("source_idx" in txt and "len(" in txt and ".raw" in txt)
+        bad = [short(e, 50) for e in exprs if not is_end(e)]
+        chk.require(
+            bool(exprs) and not bad, "R10i", st,
+            f"the 'past the end of the file' test compares the start of the range with {bad or '?'}, which is not the end of the last raw slice: a range that starts inside a trailing tag "
+            "then spans no raw slice at all, both template-safety filters see nothing to object to, and the tag is deleted from the source",
+            detail="raw_slices_spanning_source_slice: end of file is the end of the last raw slice",
+        )
+    chk.count("R10i.end_of_file_tests", n)
+    chk.floor("R10i.end_of_file_tests", 1)
 
 
 def _r10f(chk, repo) -> None:
@@ -927,6 +1014,36 @@ _KEEP_IF_FLAG = (
 )
 
 VARIANTS = [
+    Variant(
+        "jj01-closing-plus-is-not-a-modifier", "src/sqlfluff/rules/jinja/JJ01.py",
+        "        if main and main[-1] in modifier_chars:\n",
+        '        if main and main[-1] == "-":\n',
+        "R10h", "_get_whitespace_ends", "seeded C13-6: `{% if x +%}` is rewritten to `{% if x + %}`",
+    ),
+    Variant(
+        "jj01-modifiers-stripped-by-set", "src/sqlfluff/rules/jinja/JJ01.py",
+        "            main = main[1:]\n",
+        '            main = main.lstrip("+-")\n',
+        "R10h", "_get_whitespace_ends", "seeded C10-5: `{{--x}}` loses its unary minus",
+    ),
+    Variant(
+        "quiet-jj01-modifier-set-as-a-string", "src/sqlfluff/rules/jinja/JJ01.py",
+        '        modifier_chars = ["+", "-"]\n',
+        '        modifier_chars = "-+"\n',
+        "QUIET", None, "R10h: the same two characters as a string",
+    ),
+    Variant(
+        "end-of-file-is-the-start-of-a-trailing-tag", "src/sqlfluff/core/templaters/base.py",
+        "        if source_slice.start >= last_raw_slice.source_idx + len(last_raw_slice.raw):\n",
+        "        if source_slice.start >= (last_raw_slice.source_idx if last_raw_slice.slice_type != \"literal\" else last_raw_slice.end_source_idx()):\n",
+        "R10i", "raw_slices_spanning_source_slice", "seeded C10-6 (same effect): a file ending in `{{ footer }}` loses the tag",
+    ),
+    Variant(
+        "quiet-end-of-file-through-the-helper", "src/sqlfluff/core/templaters/base.py",
+        "        if source_slice.start >= last_raw_slice.source_idx + len(last_raw_slice.raw):\n",
+        "        end_of_file_idx = last_raw_slice.end_source_idx()\n        if source_slice.start >= end_of_file_idx:\n",
+        "QUIET", None, "R10i: the end through the slice's own helper and a local",
+    ),
     Variant(
         "template-conflict-test-exempts-literal-tagged-slices", "src/sqlfluff/core/rules/fix.py",
         "        result = check_fn(fs.slice_type == \"templated\" for fs in fix_slices)\n",
